@@ -1119,6 +1119,21 @@ def _(m):
                   also=(m["Fiber"],))
 
 
+@mutant("c15_and_asks_iscollecting_at_every_step", "C15")
+def _(m):
+    # round 11 (C15-AA): a co-iteration started before beginCollect() starts counting when its body switches collection on
+    patch_modfunc(m["iterators"], "__and__", [
+        ("            is_collecting = Metrics.isCollecting()\n",
+         "            is_collecting = Metrics.isCollecting()\n            rank = self.a_fiber.getRankAttrs().getId()\n"),
+        ("                    if is_collecting:\n                        Metrics.incIter(rank)\n\n                    a_coord, a_payload = _get_next(a)",
+         "                    if Metrics.isCollecting():\n                        Metrics.incIter(rank)\n\n                    a_coord, a_payload = _get_next(a)"),
+        ("                    if is_collecting:\n                        Metrics.incIter(rank)\n\n                    b_coord, b_payload = _get_next(b)",
+         "                    if Metrics.isCollecting():\n                        Metrics.incIter(rank)\n\n                    b_coord, b_payload = _get_next(b)"),
+        ("            if is_collecting:\n                Metrics.incIter(rank)\n\n            return",
+         "            if Metrics.isCollecting():\n                Metrics.incIter(rank)\n\n            return"),
+    ], None, also=(m["Fiber"],))
+
+
 def apply(name):
     if name not in MUTANTS:
         raise SystemExit(f"unknown mutant {name}; known: {sorted(MUTANTS)}")
